@@ -13,8 +13,8 @@ def main():
     chk.assume('values are opaque symbolic payloads (these operations only move values); index arrays are concrete per swept pattern, their validity is checked on each run')
     e2prop.run_e2(chk, e2prop.e2_harness_path('c02_e2.cpp'), 'c02_e2', timeout=60, harness_args=['--bounds'] + b)
     # meta-matrix slice: conversion of the meta matrices of c01_e2.cpp to one CSR matrix, scale_rows / scale_cols
-    chk.bounds.append('E2 meta-matrix slice: PowerRow/Col/Diag/Full and SaddlePoint matrices over CSR blocks (3 block variants incl. entry-free blocks and empty rows) converted to one SparseMatrixCSR; PowerDiag scale_rows / scale_cols')
-    chk.functions += ['LAFEM::SparseMatrixCSR::convert(const MT_&) for PowerRowMatrix / PowerColMatrix / PowerDiagMatrix / PowerFullMatrix / SaddlePointMatrix', 'get_length_of_line / set_line of the meta matrices', 'LAFEM::PowerDiagMatrix::{scale_rows,scale_cols}']
+    chk.bounds.append('E2 meta-matrix slice: PowerRow/Col/Diag/Full and SaddlePoint matrices over CSR blocks (3 block variants incl. entry-free blocks and empty rows) converted to one SparseMatrixCSR; PowerDiag scale_rows / scale_cols; extract_diag of square PowerDiag / PowerFull / TupleDiag matrices (3x3, blocks 2x2 and 1x1) against the dense diagonal')
+    chk.functions += ['LAFEM::SparseMatrixCSR::convert(const MT_&) for PowerRowMatrix / PowerColMatrix / PowerDiagMatrix / PowerFullMatrix / SaddlePointMatrix', 'get_length_of_line / set_line of the meta matrices', 'LAFEM::{PowerDiagMatrix,PowerFullMatrix,TupleDiagMatrix}::extract_diag', 'LAFEM::PowerDiagMatrix::{scale_rows,scale_cols}']
     e2prop.run_e2(chk, e2prop.e2_harness_path('c02m_e2.cpp'), 'c02m_e2', timeout=60, harness_args=[], max_group=1)
     # blocked slice: BCSR<2,3> clone modes, index-type conversion, permutation, construction from a Graph
     chk.bounds.append('E2 blocked slice: SparseMatrixBCSR<2,3> with 1..2 x 1..2 blocks and every pattern with 1..3 blocks: all 5 clone modes, conversion u64 -> u32 -> u64, every row x column permutation, construction from a Graph')
